@@ -491,8 +491,91 @@ class WrapBinding(FunctionContract):
                  z3.BoolVal(ok))]
 
 
+
+# ==========================================================================
+class PyEmitCallSite(FunctionContract):
+    """dagrt/codegen/python.py: CodeGenerator._emit(line), the Python emitter's use of wrap_line.  The line reaches wrap_line
+    unchanged (wrapping must see the tokens the generator wrote), at level = class level + function level and with the
+    emitter's own width and indentation (no further argument); every wrapped line is handed to the emitter exactly once, in
+    order, and nothing else is emitted.  wrap_line is uninterpreted here (its contract is WrapBinding + WrapLine)."""
+    prop = PROP
+    relpath = "dagrt/codegen/python.py"
+    qualname = "CodeGenerator._emit"
+    strings_symbolic = True
+
+    def __init__(self):
+        self.line = z3.String("line")
+        self.cl, self.el = z3.Int("class_emitter_level"), z3.Int("emitter_level")
+        self.W = TList(STR).fresh("wrapped")
+
+    class VEmitter(V):
+        ty = None
+
+        def __init__(self, outer, level):
+            self.outer, self.level = outer, level
+
+        def call(self, ctx, it, args, kw):
+            a = ctx.deref(args[0]) if len(args) == 1 and not kw else None
+            if not isinstance(a, VStr):
+                raise Unsupported("emitter(%r)" % (args,))
+            k = ctx.ghost["emitted"]
+            W = self.outer.W
+            ctx.oblige("each-emitted-line-is-the-next-wrapped-line@L%s" % ctx.cur_line,
+                       And(ctx.ghost["wrapped_called"], k < W.n, a.t == z3.Select(W.a, k)))
+            ctx.ghost["emitted"] = k + 1
+            return NONE
+
+    def params(self, ctx):
+        em = self.VEmitter(self, self.el)
+        ce = self.VEmitter(self, self.cl)
+        ctx.env["self"] = VObj(TObj("CodeGenerator", {}), {"_emitter": em, "_class_emitter": ce})
+        ctx.env["line"] = VStr(self.line)
+        ctx.ghost["emitted"] = z3.IntVal(0)
+        ctx.ghost["wrapped_called"] = z3.BoolVal(False)
+        ctx.assume(self.W.n >= 0)
+
+    def getattr_hook(self, ctx, it, obj, name):
+        o = ctx.deref(obj)
+        if isinstance(o, self.VEmitter) and name == "level":
+            return VInt(o.level)
+        return None
+
+    def m_wrap(self, ctx, it, args, kw):
+        if z3.is_true(z3.simplify(ctx.ghost["wrapped_called"])):
+            raise Unsupported("wrap_line called twice")
+        names = ["line", "level", "width", "indentation"]
+        b = {}
+        for n, v in zip(names, args):
+            b[n] = ctx.deref(v)
+        for k, v in kw.items():
+            if k in b or k not in names:
+                raise Unsupported("wrap_line(%s=...)" % k)
+            b[k] = ctx.deref(v)
+        if set(b) - {"line", "level"}:
+            raise Unsupported("wrap_line is given %s by the emitter: the generated file's width and indentation are the "
+                              "emitter's (80, four blanks); another choice is not covered" % sorted(set(b) - {"line", "level"}))
+        if not (isinstance(b.get("line"), VStr) and isinstance(b.get("level"), VInt)):
+            raise Unsupported("wrap_line(%r)" % (b,))
+        ctx.oblige("the-line-reaches-wrap_line-unchanged@L%s" % ctx.cur_line, b["line"].t == self.line)
+        ctx.oblige("wrapped-at-class-level-plus-function-level@L%s" % ctx.cur_line, b["level"].t == self.cl + self.el)
+        ctx.ghost["wrapped_called"] = z3.BoolVal(True)
+        return self.W
+
+    names = property(lambda self: {"wrap_line": VFunc("wrap_line", self.m_wrap)})
+
+    def inv(self, s):
+        return [("emitted-so-far-are-the-wrapped-lines-before-this-one", s.g("emitted") == s.loop(0)["$i"].t)]
+
+    loops = property(lambda self: {0: dict(shape="for wrapped_line in wrap_line(line, level)", inv=self.inv,
+                                           havoc_ghosts=["emitted"])})
+
+    def ensures(self, st):
+        return [("every-wrapped-line-is-emitted-exactly-once-in-order-and-nothing-else",
+                 And(st.g("wrapped_called"), st.g("emitted") == self.W.n))]
+
+
 def units():
-    return [FunctionUnit(WrapLine()), FunctionUnit(WrapLineDefault()),
+    return [FunctionUnit(WrapLine()), FunctionUnit(WrapLineDefault()), FunctionUnit(PyEmitCallSite()),
             FunctionUnit(WrapBinding("dagrt/codegen/python.py", "pad_python")),
             FunctionUnit(WrapBinding("dagrt/codegen/fortran.py", "pad_fortran")),
             FunctionUnit(PadContract("dagrt/codegen/python.py", "pad_python", "\\")),
